@@ -132,6 +132,18 @@ def _run(pid, tier, classes, with_faults):
         for s in scs:
             f.write(json.dumps(s) + "\n")
     doc = harness(["client", "-scenarios", sp, "-trace", tp], timeout=1500, allow_crash=True)
+    if not q and not with_faults:
+        # "concurrent use is free of data races": the same schedules under the Go race detector
+        tp2 = tp + ".race"
+        d3 = harness(["client", "-scenarios", sp, "-trace", tp2], timeout=2400, race=True, ok_codes=(0, 66), allow_crash=True)
+        out3 = d3.get("_stdout", "")
+        races = out3.count("WARNING: DATA RACE")
+        ck.add_cov(race_detector_reports=races)
+        if races:
+            first = out3[out3.index("WARNING: DATA RACE"):][:3000]
+            ck.violation("data-race", "the Go race detector reports %d data race(s) in concurrent use of one client session\n%s" % (races, first), {"race": first})
+        if os.path.exists(tp2):
+            os.unlink(tp2)
     os.unlink(sp)
     if doc.get("crashed"):
         out = doc["_stdout"]
